@@ -88,4 +88,13 @@ def edit(m, P, spelling=0):
     s2.equation = [lambda: fout + bf, lambda: bf + fout, lambda: 1.0 * bf + fout][spelling % 3]()
     s3.equation = [lambda: sd.lookup(sd.time(), "tab") + c1 ** 2, lambda: c1 * c1 + sd.lookup(sd.time(), "tab")][spelling % 2]()
     s4.equation = [lambda: sd.max(c1, g), lambda: sd.If(c1 > g, c1, g)][spelling % 2]()
-    m.reset_cache()
+    # last: the converter and the biflow are given a wrong equation, everything downstream is evaluated, then they get their
+    # right equation back.  No explicit cache reset: the equation setters are the API that has to take care of it.
+    a_, b_ = c["a"], c["b"]
+    c1.equation = sd.time() * 0.0 + 1.0
+    bf.equation = c1 * 0.0
+    for name in ("s1", "s2", "s3", "s4", "fin", "lks"):
+        m.evaluate_equation(name, m.stoptime)
+    c1.equation = [lambda: a_ * sd.time() - b_, lambda: sd.time() * a_ - b_][spelling % 2]()
+    m.evaluate_equation("s2", m.stoptime)
+    bf.equation = c1
